@@ -34,7 +34,7 @@ Diamond == [A |-> {"B", "C"}, B |-> {"C"}, C |-> {}]
 Fan     == [A |-> {"B", "C"}, B |-> {}, C |-> {}]
 Shapes == {Chain, Diamond, Fan}
 RootSites == {"param", "ret", "chan", "event", "err"}
-EdgeCtxs == (Ctxs \ {"hmapk", "bmapk"}) \cup {"direct"}
+EdgeCtxs == Ctxs \cup {"direct"}
 Ty(cx, n) == IF cx = "direct" THEN Node(n) ELSE Apply(cx, Node(n))
 EdgeCases ==
     { [kind |-> "graph", nodes |-> <<"A", "B", "C", "D">>,
